@@ -74,6 +74,11 @@ CHECKS["C16"] = dict(engine="system", level=("fault_enumeration", "Transient fau
     note="real derr back-off (>= 1 s per retry) limits the number of fault runs; deadline-exceeded x3 is specified to fail the job and is not injected; fault placements are sampled, not enumerated against the real code",
     technique="TLA+ retry/idempotence model (MCWorker.tla) checked by TLC + trace validation (TraceSystem.tla) of real RemoteWorker/tier2 runs under injected faults")
 
+CHECKS["C05"] = dict(engine="system", level=("model_checking", "Sched.tla is a transcription of orchestrator/stage (unit matrix, shadowing, dependenciesCompleted, NextJob, TryMerge, MoveSegmentCompletedForward, FetchStoresState) and of Scheduler.Update; MCSched.tla closes it with an environment (workers finishing in any order, merges, cache contents) and TLC checks, for every interleaving of small configurations (2-3 stages x 3-4 segments, 1-2 workers, empty / prefix / arbitrary caches): no invalid transition, every started job has its lower stores complete, every store segment merged once and in order, worker count within bounds, and termination under weak fairness. Conformance: the scheduler hook records every real Scheduler.Update of real tier1 runs (matrix, counters, walker, flags); TraceSched.tla replays the transcription step by step (difference = drift) and evaluates the property predicates on the OBSERVED matrices; TraceSystem.tla checks each request terminates with the right outcome. TLC counterexamples of the arbitrary-cache configuration are replayed into the real code (schedcex).", "6/C05"),
+    note="the design model is exhaustive only for the small configurations listed; real runs are sampled; open known findings: three ways a job is started before a lower store is complete (snapshot gap in the cache, first segment of a later-starting stage, indirect lower stage judged through the direct parent only), all currently masked by the tier2 load retry or ending in D7",
+    technique="TLA+ transcription of the scheduler (Sched.tla) model-checked by TLC in a closed environment (MCSched.tla) + trace validation of every real Scheduler.Update (TraceSched.tla)")
+HOOK_COMMITS.append("d1d8afab")
+
 NOT_YET = "machinery for this property is not built yet in this revision (work in progress; see DESIGN.md section 9 for the plan)"
 
 
